@@ -19,21 +19,21 @@ func init() { Registry["C12"] = checkC12 }
 // entry points whose (mutable-typed) parameters are inputs that must come back unchanged
 var inputParams = map[string][]string{
 	"algorithm/adam.Run": {"x0"}, "algorithm/adam.RunGradient": {"x0"},
-	"algorithm/backSubstitution.Run": {"A", "b"},
-	"algorithm/bfgs.Run":             {"x0"},
-	"algorithm/blahut.Run":           {"channel", "p_init"},
-	"algorithm/cholesky.Run":         {"a"},
-	"algorithm/determinant.Run":      {"a"},
-	"algorithm/eigensystem.Run":      {"a"},
-	"algorithm/gradientDescent.Run":  {"x0"},
-	"algorithm/gramSchmidt.Run":      {"a"},
-	"algorithm/hessenbergReduction.Run":          {"a"},
-	"algorithm/householderBidiagonalization.Run": {"a"},
+	"algorithm/backSubstitution.Run":              {"A", "b"},
+	"algorithm/bfgs.Run":                          {"x0"},
+	"algorithm/blahut.Run":                        {"channel", "p_init"},
+	"algorithm/cholesky.Run":                      {"a"},
+	"algorithm/determinant.Run":                   {"a"},
+	"algorithm/eigensystem.Run":                   {"a"},
+	"algorithm/gradientDescent.Run":               {"x0"},
+	"algorithm/gramSchmidt.Run":                   {"a"},
+	"algorithm/hessenbergReduction.Run":           {"a"},
+	"algorithm/householderBidiagonalization.Run":  {"a"},
 	"algorithm/householderTridiagonalization.Run": {"a"},
-	"algorithm/matrixInverse.Run": {"matrix"},
-	"algorithm/msqrt.Run":         {"matrix"},
-	"algorithm/msqrtInv.Run":      {"matrix"},
-	"algorithm/newton.RunRoot":    {"x"}, "algorithm/newton.RunCrit": {"x"}, "algorithm/newton.RunMin": {"x"},
+	"algorithm/matrixInverse.Run":                 {"matrix"},
+	"algorithm/msqrt.Run":                         {"matrix"},
+	"algorithm/msqrtInv.Run":                      {"matrix"},
+	"algorithm/newton.RunRoot":                    {"x"}, "algorithm/newton.RunCrit": {"x"}, "algorithm/newton.RunMin": {"x"},
 	"algorithm/qrAlgorithm.Run": {"a"},
 	"algorithm/rprop.Run":       {"x0"}, "algorithm/rprop.RunGradient": {"x0"},
 	"algorithm/saga.Run": {"x"},
